@@ -634,8 +634,13 @@ def template_db():
         e._data_store.dispose()
         _TEMPLATE_DB = p
         import atexit
-        atexit.register(shutil.rmtree, d, True)
+        owner = os.getpid()
+        atexit.register(lambda: shutil.rmtree(d, True) if os.getpid() == owner else None)
     return _TEMPLATE_DB
+
+
+from mc import par as _par  # noqa: E402
+_par.PRE_FORK.append(template_db)
 
 
 def default_policies(extra=None):
